@@ -150,6 +150,22 @@ func runC05(c *Ctx) error {
 				readsBefore = len(op.Reader.log)
 			}
 			obs := doSend(conn, tap, op)
+			// a streamed send that fails after non-final frames have gone out must not leave the connection usable: the next
+			// data frame would start a message inside the unfinished one
+			if op.API == "file" && obs.Res != 0 && obs.Res != 9 {
+				if fs, rest, err := parseFrames(obs.Wire); err == nil && len(rest) == 0 {
+					var lastData *frame
+					for i := range fs {
+						if fs[i].Opcode < 8 {
+							lastData = &fs[i]
+						}
+					}
+					if closed, _ := tap.isClosed(); lastData != nil && !lastData.Fin && !closed {
+						c.oracleFail(fmt.Sprintf("a streamed send failed (result %d) after non-final frames went out, and the connection is still open: the next message would start inside the unfinished one [spec=%d server=%v %s]", obs.Res, si, spec.Server, label),
+							"unfinished-message-left-open", map[string]any{"spec": fmt.Sprintf("%+v", spec), "label": label})
+					}
+				}
+			}
 			// a failed call also fails the connection: emitError writes a Close frame (1001) behind it.
 			// It is not part of the message; split it off (status checked here, body modelled under C06).
 			if obs.Res != 0 && obs.Res != 9 {
@@ -309,6 +325,7 @@ func runC05(c *Ctx) error {
 			{API: "message", Opcode: 2, Slices: [][]byte{make([]byte, 1001)}},
 			{API: "broadcast", Opcode: 2, Slices: [][]byte{make([]byte, 1001)}},
 			{API: "file", Opcode: 2, Reader: newChunkReader([][]byte{randBytes(c.Rng, 10)}, "fail")},
+			{API: "file", Opcode: 2, Reader: newChunkReader([][]byte{make([]byte, 131072), make([]byte, 131072), []byte("x")}, "fail")},
 			{API: "file", Opcode: 2, Reader: newChunkReader([][]byte{randBytes(c.Rng, 500), randBytes(c.Rng, 1500)}, "sep")},
 		}
 		for ri, rop := range rejects {
